@@ -7,7 +7,7 @@ EXPLANATION = ("Panic-site census over everything reachable from the public pars
                "source: every MIR Assert and panicking API call (index, slice range, copy_from_slice, unwrap/expect) must be discharged by a dominating "
                "length fact (data.len() != 34 -> return), a fixed-size type (GenericArray<u8, U64>) or equal constant lengths, or be listed as reviewed. "
                "Removing or weakening the length test re-opens the sites. (R18.2) parse_openssl_25519_pubkeys_pem_many pushes the key of every PEM block, once, in "
-               "iteration order, and never removes or reorders. (R18.3) whatever pem::parse rejects goes to the DER parser unmodified; (R18.4) a key structure whose algorithm identifier is neither ED_25519_OID nor X_25519_OID is refused: with the equal-edges of the two comparisons cut, no Ok result is reachable in the entry point or in a parser it runs. Round-trip of generated keys and Edwards->Montgomery conversion are numeric / runtime facts and not decided.")
+               "iteration order, and never removes or reorders. (R18.3) whatever pem::parse rejects goes to the DER parser unmodified; (R18.5) in the key-list parser a PEM block with another label than PUBLIC KEY ends the call with an error (no path from the mismatch edge back to the next block / to an Ok item); (R18.4) a key structure whose algorithm identifier is neither ED_25519_OID nor X_25519_OID is refused: with the equal-edges of the two comparisons cut, no Ok result is reachable in the entry point or in a parser it runs. Round-trip of generated keys and Edwards->Montgomery conversion are numeric / runtime facts and not decided.")
 TRUSTED = ['rustc MIR', 'der-parser, nom, pem, curve25519-dalek, sha2 do not panic on arbitrary bytes (dependencies are not analysed)']
 ASSUMPTIONS = ['overflow checks on']
 
